@@ -170,6 +170,12 @@ func ZZ_C20_groupDecodeRejects() {
 func ZZ_C20_keysRoundTrip() {
 	sch := zzSchemeParam()
 	pair := zzfake.KeyPair(sch, "node.example:8080", "c20-pair")
+	// the private scalar is arbitrary (its encoded form may start with zero bytes)
+	pair.Key = sch.KeyGroup.Scalar().SetBytes(zz.Bytes("pair.secret", sch.KeyGroup.ScalarLen()))
+	pair.Public.Key = sch.KeyGroup.Point().Mul(pair.Key, nil)
+	if err := pair.SelfSign(); err != nil {
+		panic(err)
+	}
 	// Pair
 	p2 := new(key.Pair)
 	zz.Assert("pair_decodes", p2.FromTOML(pair.TOML()) == nil)
@@ -196,6 +202,7 @@ func ZZ_C20_keysRoundTrip() {
 	ep := zzfake.Deal(sch, n, t, "c20-secret", "c20-poly")
 	idx := zz.Choose("share.index", n)
 	sh := ep.Share(sch, idx)
+	sh.Share.V = sch.KeyGroup.Scalar().SetBytes(zz.Bytes("share.value", sch.KeyGroup.ScalarLen())) // arbitrary share value
 	sh2 := new(key.Share)
 	zz.Assert("share_decodes", sh2.FromTOML(sh.TOML()) == nil)
 	zz.Assert("share_index", sh2.Share != nil && sh2.Share.I == sh.Share.I)
